@@ -55,7 +55,7 @@ pub fn c04_frame<F: Fam>(ctx: &Ctx, g: &G, b: &[u8]) {
             }
             match &op {
                 Out::Pkt(p) => {
-                    match F::from_ast(&ast) {
+                    match crate::ev::guard(|| F::from_ast(&ast)).ok().flatten() {
                         Some(q) => {
                             if *p != q {
                                 ctx.violation(
